@@ -47,9 +47,16 @@ AllQueries == Queries2 \cup (IF OUTER THEN { Conj2(G(V(8)), q) : q \in Queries2 
 VARIABLES st, hist, q
 gvars == <<st, hist, q>>
 
-GInit == /\ q \in AllQueries
-         /\ st = InitStateX(Db0, q, 8, 9)
-         /\ hist = <<>>
+\* (the components are enumerated, not the set AllQueries: building and normalising a set of 10^5 deep terms takes TLC longer
+\* than exploring them)
+NoK2 == A("$none")
+GInit == \E g1 \in Seqs(N), c1 \in Catchers1, r1 \in Recov1, k \in Conts, c2 \in Catchers2,
+            k2 \in (IF AFTER THEN Conts2 \cup {NoK2} ELSE {NoK2}), o \in (IF OUTER THEN BOOLEAN ELSE {FALSE}) :
+            LET q0 == Inner(g1, c1, r1, k, c2)
+                q1 == IF k2 = NoK2 THEN q0 ELSE Conj2(q0, k2)
+            IN /\ q = (IF o THEN Conj2(G(V(8)), q1) ELSE q1)
+               /\ st = InitStateX(Db0, q, 8, 9)
+               /\ hist = <<>>
 
 GNext == /\ ~Terminal(st)
          /\ \E t \in Steps(st) : /\ ~(st.status = "answer" /\ t.status = "closed")
